@@ -1,4 +1,5 @@
 mod big;
+mod floatchk;
 mod native;
 mod ops;
 mod scalar;
@@ -100,6 +101,12 @@ fn main() {
             let full = argv.get(5).map(|s| s == "full").unwrap_or(false);
             match which {
                 "c13" => native::c13(n, seed, full),
+                "c06" => floatchk::c06(n, seed),
+                "c07" => floatchk::c07(n, seed),
+                "c09" => floatchk::c09(n, seed),
+                "c11" => floatchk::c11(n, seed),
+                "c14" => floatchk::c14(n, seed),
+                "c15" => floatchk::c15(n, seed),
                 _ => {
                     eprintln!("unknown native check");
                     std::process::exit(2);
